@@ -214,6 +214,24 @@ pub fn gen_json(seed: u64, n_valid: u64, out: &crate::gens::Sink) {
             out.push(format!("json.rt {ty} {v}"));
         }
     }
+    // a decode that FAILS part-way (the library's own JSON cut short) and right after it, on the same thread, a valid
+    // round trip: a decoder must not remember a failure
+    for ty in JTYPES {
+        for _ in 0..(n_valid / 10).max(12) {
+            let v = rjvalue(&mut r, ty);
+            let Some(text) = enc_by_type(ty, &v) else { continue };
+            let chars: Vec<char> = text.chars().collect();
+            if chars.len() < 2 { continue; }
+            // cut points: biased towards the second half (inside or after the first list elements)
+            let cut = if r.chance(2, 3) { chars.len() / 2 + r.below((chars.len() / 2) as u64) as usize } else { r.below(chars.len() as u64) as usize };
+            let pre: String = chars[..cut.min(chars.len() - 1).max(1)].iter().collect();
+            out.push(format!("case {case}"));
+            case += 1;
+            out.push(format!("json.dec {ty} {}", crate::codec::hex(&pre)).trim_end().to_string());
+            let v2 = rjvalue(&mut r, ty);
+            out.push(format!("json.rt {ty} {v2}"));
+        }
+    }
     // values with very many elements (past 10 000 and past 65 536), one size per kind and run
     for kind in ["snap-json", "pkg-json", "level-json", "queue-json", "mr-json"] {
         out.push(format!("case {case}"));
